@@ -298,6 +298,34 @@ def judge_csv(rec, crules, txns, tmp, rnd):
                           dict(case0, txns=[O.jtxn(txn)]))
 
 
+def fixed_files(rec, tmp, rnd):
+    """Rule files the random generator only writes now and then, judged on every change by the same reference comparison."""
+    files = [
+        # regular expressions that differ only in the letter case of an escape class are different expressions - in either order, and evaluated one after the other
+        R.RuleFile(rules=[R.Rule('Atm Digit', 'regex("^ATM\\\\s+\\\\d")', 'Cash', 'Atm'), R.Rule('Atm Word', 'regex("^ATM\\\\s+\\\\D")', 'Fees', 'Atm'),
+                          R.Rule('Eats In', 'regex("\\\\bEATS\\\\b")', 'Food', 'Delivery'), R.Rule('Eats Out', 'regex("\\\\BEATS\\\\B")', 'Music', 'Gear')]),
+        R.RuleFile(rules=[R.Rule('Atm Word', 'regex("^ATM\\\\s+\\\\D")', 'Fees', 'Atm'), R.Rule('Atm Digit', 'regex("^ATM\\\\s+\\\\d")', 'Cash', 'Atm'),
+                          R.Rule('Shell S', 'regex("SHELL\\\\S\\\\d+")', 'Fuel', 'Glued'), R.Rule('Shell s', 'regex("SHELL\\\\s\\\\d+")', 'Fuel', 'Spaced')]),
+        # a file that re-defines built-in names at top level and in a let: the user's definition is what the rules read
+        R.RuleFile(variables=[('amount', 'abs(amount)'), ('big', '100')], rules=[R.Rule('Big Either Way', 'amount > big', 'Large', 'Abs'), R.Rule('Rest', 'true', 'Small', 'Abs')]),
+        R.RuleFile(rules=[R.Rule('Let Month', 'contains("NETFLIX") and month == 99', 'Subs', 'Shadowed', lets=[('month', '99')]),
+                          R.Rule('Plain Month', 'contains("NETFLIX") and month < 13', 'Subs', 'Calendar')]),
+        R.RuleFile(variables=[('description', 'uppercase(description)'), ('source', '"Everywhere"')],
+                   rules=[R.Rule('Src', 'source == "Everywhere" and description == uppercase(description)', 'Redefined', 'x'), R.Rule('Rest', 'true', 'Plain', 'x')]),
+    ]
+    descs = ['ATM 00123 WITHDRAWAL', 'ATM FEE', 'UBER EATS 42', 'BEATS BY DRE', 'xBEATSx', 'SHELL 0042', 'SHELLX0042', 'NETFLIX.COM', 'Netflix', 'costco whole foods']
+    for rf in files:
+        txns = []
+        for d in descs:
+            for a in (250.0, -250.0, 12.0):
+                t = world.txn(rnd, desc=d)
+                t['amount'] = a
+                txns.append(t)
+        judge_file(rec, rf, txns, world.ROWS, tmp, rnd, deep=True)
+        judge_pipeline(rec, rf, txns, world.ROWS, tmp, rnd)
+        rec.count('fixed_rule_files')
+
+
 def run(rec, shard, nshards, t):
     core.import_tally()
     rnd = core.rng_for('C01', shard)
@@ -347,6 +375,8 @@ def run(rec, shard, nshards, t):
                 judge_legacy_parsers(rec, rf, txns, tmp, rnd)
             if i < 1 and shard == 0:
                 rec.sample({'rules_file': R.render(rf), 'txn': O.jtxn(txns[0])})
+        if shard == 0:
+            fixed_files(rec, tmp, rnd)
         ncsv = (100 if t == 'quick' else 2000) // nshards
         for i in range(ncsv):
             cr = R.gen_csv_rules(rnd)
